@@ -185,6 +185,15 @@ fn supervise(cases: &str, out: &str, deadline: Duration) {
     }
 }
 
+/// alphabet of the cut-and-continue space (Gen_TokenStrings.tla, K = 22)
+pub const CUT_TOKENS: [&str; 22] = [")", "}", "]", "(", "{", "[", ",", ";", "=>", "=", "x", "1", "match", "if", "else", "let", "for", "in", "..", ":", "::", "|"];
+/// programs that contain every construct of the language once; cut at every token boundary
+pub const CUT_BASES: [&str; 3] = [
+    "struct S { a: u8, b: bool } enum E { A, B(u8) } const C: u8 = 1u8; fn f(p: u8) -> u8 { p + C } pub fn main(x: u8, s: S, e: E, arr: [u8; 2]) -> u8 { let mut m = f(x); let (t, u) = (x, true); m = if u { m } else { 0u8 }; for i in arr { m = m ^ i; } let r = match e { E::A => { m } E::B(v) => v, }; let q = match s { S { a, .. } => a }; let w = [x; 2]; m += 1u8; ((m as u16) as u8) + r + q + w[0] + arr[1usize] + s.a + t }",
+    "pub fn main(x: i16, y: (bool, [i16; 2])) -> bool { let z = S { a: 1u8, b: true }; if x <= 3i16 && !(y.0) || y.1[0] == -x { match (x, y.0) { (1i16..=5i16, true) => false, (_, b) => { let k = b; k } } } else if x > 0i16 { true } else { false } }",
+    "pub fn main(a: [(u8, u16); 3], b: [(u8, bool); 2]) -> u16 { let mut acc = 0u16; for joined in join_iter(a, b) { let ((k1, v), (k2, w)) = joined; acc = acc + v; } for i in 0usize..3usize { acc = acc + a[i].1 } let j = join(a, b); acc }",
+];
+
 /// frontend-run <mode> <input> <texts out> <events out> <deadline ms> [corpus dir] [max programs]
 /// mode "strings": input = ndjson of {s:[chars]} (scanner model strings); mode "edits": input = ndjson of edits;
 /// mode "soup": input = number of random token sequences; mode "texts": input already has {kind,text}
@@ -223,6 +232,20 @@ pub fn cmd_run(args: &[String]) {
                 // literal texts: perturbations of a few literals
                 for lit in ["[1, 2]", "(-5, true)", "P {a: 1, b: false}", "E::B(7)", "200"] {
                     if let Some(toks) = tokens_of(lit) { for e in &edits { if let Some(t) = apply_edit(&toks, e) { emit(&mut w, &json!({"kind":"lit","text":t,"prog":lit,"edit":e})); } } }
+                }
+            }
+            "cuts" => {
+                // every prefix of the construct-covering programs followed by every TLC-enumerated short token string
+                let strings: Vec<Vec<usize>> = read_lines(&args[1]).map(|l| { let c: Value = serde_json::from_str(&l).unwrap(); c["s"].as_array().unwrap().iter().map(|x| x.as_u64().unwrap() as usize).collect() }).collect();
+                for (bi, base) in CUT_BASES.iter().enumerate() {
+                    let Some(toks) = tokens_of(base) else { panic!("cut base {bi} cannot be tokenised") };
+                    for cut in 0..=toks.len() {
+                        let prefix: String = toks[..cut].iter().map(|(_, t)| t.as_str()).collect::<Vec<_>>().join(" ");
+                        for st in &strings {
+                            let suffix: String = st.iter().map(|i| CUT_TOKENS[(*i - 1) % CUT_TOKENS.len()]).collect::<Vec<_>>().join(" ");
+                            emit(&mut w, &json!({"kind":"text","text":format!("{prefix} {suffix}"),"prog":format!("cut-base-{bi}"),"edit":{"k":"cut","pos":cut,"s":st}}));
+                        }
+                    }
                 }
             }
             "soup" => {
